@@ -7,6 +7,7 @@ RWRefine.lean (ring of buckets = event log), Capacity.lean (model capacity = his
 latency × windowScale) over the sliding window with the current bucket ignored.
 -/
 import GoZero.C02.Capacity
+import GoZero.C02.Interleave
 namespace GoZero.C02
 
 /-- **Sheds only when hot and busy.**  For every shedder state, time, checker verdict and CPU reading:
@@ -222,6 +223,28 @@ theorem monitor_sound (window buckets : Nat) (threshold : Int) (t0 : Nat)
   have inv := runH_inv wc ops _ _ (ref_init window buckets threshold t0 ht)
     (wref_init window buckets threshold t0 hb hw)
   exact monitor_sound_of_ref wc _ _ inv.1 inv.2 cpuOver cpu
+
+/-! ### every interleaving, any number of goroutines (model: Interleave.lean) -/
+
+/-- **In-flight conservation under every schedule.**  With any number `n` of request goroutines running
+Allow / Pass / Fail concurrently (each shared access one atomic step, any interleaving), in every reachable
+state the `flying` counter equals the number of goroutines that have been admitted and have not yet resolved
+their promise. -/
+theorem flying_conservation_all_schedules (n : Nat) (s : Conc.Sys) (h : Conc.Reach n s) :
+    s.flying = (Conc.inFlight s : Int) :=
+  (Conc.reach_inv n s h).conserve
+
+/-- **A shed under every schedule** is decided on a value of `flying` that was, at its read instant, the
+number of requests in flight and at least 1 (limit = maxFlight·factor ≥ 1/10): with nothing in flight at that
+instant no goroutine can be shed. -/
+theorem shed_read_at_least_one_in_flight (n : Nat) (s : Conc.Sys) (h : Conc.Reach n s) (t : Conc.Th)
+    (ht : t ∈ s.ths) (hd : t.pc = 2) : 1 ≤ t.rf :=
+  (Conc.reach_inv n s h).dropped t ht hd
+
+-- non-vacuity: three goroutines; 0 and 1 are admitted, 2 reads flying = 2 and is shed against limit 1/10
+example : ((((((Conc.step (Conc.init 3) 0 0 false).bind (Conc.step · 0 0 false)).bind (Conc.step · 1 0 false)).bind
+    (Conc.step · 1 0 false)).bind (Conc.step · 2 0 false)).bind (Conc.step · 2 (1 / 10) true)).map
+    (fun s => (s.flying, Conc.inFlight s, s.ths.map (·.pc))) = some (2, 2, [3, 3, 2]) := by decide +kernel
 
 /-- **A disabled shedder never sheds** (`NewAdaptiveShedder` returns the nop shedder when disabled). -/
 theorem disabled_never_sheds : nopAllow = Verdict.admitted := rfl
